@@ -3,6 +3,8 @@ from . import c15
 
 
 def run(check, pool, Task):
+    from . import validate
+    validate.apply(check, ['orient', 'measures'])
     thorough = check.tier == 'thorough'
     cap = 900
     check.bounds.update({'kernel': 'polygons of <= 3 rings of <= 4 (5) distinct vertices, <= 2 polygons, optional leading ring outside the slice; |v| <= 2^24',
